@@ -1,3 +1,5 @@
-# sourced by every script: offline Go environment
+# sourced by every script (after cd to the checkout root): offline Go environment.
 export GOFLAGS=-mod=mod GOPROXY=off GOSUMDB=off GOTOOLCHAIN=local
-export VERIF_ROOT="${VERIF_ROOT:-/verif}"
+# Evidence, replays and known_findings.txt are taken from the checkout the
+# script runs in (/verif for the registered commands; a snapshot for vp run).
+export VERIF_ROOT="${VERIF_ROOT:-$(pwd)}"
